@@ -17,6 +17,25 @@ CHECKS = {
             "under all db-reply/driver-gate deviations up to the bound, plus scatter->jobs->gather through the real "
             "executor; oracle: exactly one ListToken with original tag and order.",
             "Environment model of DESIGN 2.1; list lengths > 15 and depth > 3 not explored.", "3/C01"),
+    "C04": ("model_checking", "E1", E1 + "; fault plans enumerated",
+            "Real StreamFlowExecutor on a catalogue of workflow shapes (pipelines, scatter/gather, nested scatter, dot/"
+            "cartesian combinators, conditionals, job pipelines, scattered jobs, diamond, loops, compositions) x fault "
+            "plans (each job x {FAILED, raise, schedule raises, transfer raises}; pairs in thorough) x every schedule "
+            "within the deviation bound; oracle: no hang/livelock, run() returns/raises as required, every step "
+            "terminated with a terminal status, every output port terminated, no task pending at quiescence.",
+            "Leaf job behaviour and faults are harness code; workflows have <= ~25 steps; <= 2 deviations.", "3/C04"),
+    "C05": ("model_checking", "E1", E1 + "; differential across schedules",
+            "Same catalogue, fault-free: outputs of every explored schedule equal those of the default schedule and "
+            "the value predicted by a reference function of the program.",
+            "As C04.", "3/C05"),
+    "C07": ("model_checking", "E1", E1 + "; oracle on the SQLite tables",
+            "After every explored execution the token and provenance tables are read through raw sqlite3 and compared "
+            "with a per-step-class reference of the dependee set; acyclicity and dependee<depender checked on the whole table.",
+            "As C04; recovery workflows are covered by the C16 harness once built.", "3/C07"),
+    "C15": ("model_checking", "E1", E1,
+            "Programs with concurrently scheduled jobs under every schedule within the bound; every JobToken's three "
+            "directories exist, are registered in the data manager, and are disjoint across jobs unless fixed.",
+            "Local location only (shell-remote locations need real subprocesses, not available on the controlled loop).", "3/C15"),
 }
 
 NOT_YET = "check not built yet in this session (planned, see DESIGN.md section 3); no claim is made"
